@@ -20,7 +20,7 @@ Inductive ty : Type :=
 | TyStruct (fs : list (tmeta * ty))
 | TyPtr (t : ty)
 | TySlice (t : ty)
-| TyMap (t : ty)                         (* map[string]t *)
+| TyMap (k t : ty)                       (* map[k]t *)
 | TyArray (t : ty).
 
 Section TyInd.
@@ -33,7 +33,7 @@ Section TyInd.
   Hypothesis HStruct : forall fs, Forall (fun p => P (snd p)) fs -> P (TyStruct fs).
   Hypothesis HPtr : forall t, P t -> P (TyPtr t).
   Hypothesis HSlice : forall t, P t -> P (TySlice t).
-  Hypothesis HMap : forall t, P t -> P (TyMap t).
+  Hypothesis HMap : forall k t, P k -> P t -> P (TyMap k t).
   Hypothesis HArray : forall t, P t -> P (TyArray t).
 
   Fixpoint ty_ind' (t : ty) : P t :=
@@ -47,7 +47,7 @@ Section TyInd.
                        end) fs)
     | TyPtr t => HPtr t (ty_ind' t)
     | TySlice t => HSlice t (ty_ind' t)
-    | TyMap t => HMap t (ty_ind' t)
+    | TyMap k t => HMap k t (ty_ind' k) (ty_ind' t)
     | TyArray t => HArray t (ty_ind' t)
     end.
 End TyInd.
@@ -58,13 +58,15 @@ Definition offending (m : tmeta) : bool :=
 
 (* findSecretsType(t, path, seen): Some path = the error (path of field indices of the field reported,
    the first one in the code's depth-first order); None = nil.
-     for t.Kind() == Ptr { t = t.Elem() }            -> the TyPtr case
+     for { Ptr, Slice, Array: t = t.Elem(); Map: findSecretsType(t.Key()) first, then t = t.Elem() }
+                                                      -> the TyPtr / TySlice / TyArray / TyMap cases (since commit 3e0a32d)
      if t.Kind() != Struct { return nil }             -> every other non-struct case
      for each field: name matches and neither tag -> error; else recurse into the field's type
    (the recursion happens whatever the field's own tag is). *)
 Fixpoint find_secrets (t : ty) : option (list nat) :=
   match t with
-  | TyPtr t' => find_secrets t'
+  | TyPtr t' | TySlice t' | TyArray t' => find_secrets t'
+  | TyMap k t' => match find_secrets k with Some path => Some path | None => find_secrets t' end
   | TyStruct fs =>
       (fix fields (i : nat) (l : list (tmeta * ty)) : option (list nat) :=
          match l with
@@ -90,4 +92,8 @@ Definition register_ok (req resp : ty) : bool :=
 Inductive reach : ty -> tmeta -> Prop :=
 | R_here : forall fs m t, In (m, t) fs -> reach (TyStruct fs) m
 | R_field : forall fs m t m', In (m, t) fs -> reach t m' -> reach (TyStruct fs) m'
-| R_ptr : forall t m, reach t m -> reach (TyPtr t) m.
+| R_ptr : forall t m, reach t m -> reach (TyPtr t) m
+| R_slice : forall t m, reach t m -> reach (TySlice t) m
+| R_array : forall t m, reach t m -> reach (TyArray t) m
+| R_map_key : forall k t m, reach k m -> reach (TyMap k t) m
+| R_map_elem : forall k t m, reach t m -> reach (TyMap k t) m.
